@@ -91,6 +91,7 @@ def run(ctx):
     chk.rule('T2', 'field wiring: parseValue_X writes exactly the configuration fields getOptionValueAsString_X reads', floor=8)
     chk.rule('T3', 'syslog tables: the (name, LOG_*) pairs of ...ToInt and ...ToStr are equal, bijective, and each name is '
                    'the macro\'s suffix', floor=4)
+    chk.rule('T7', 'a value is unquoted only when its first and last character are the same quote character', floor=2)
     chk.rule('T4', 'length parser: every non-default return passes both clamps, limits come from it with the documented '
                    'bounds, no overflowing arithmetic on the converted number', floor=3)
     chk.rule('T5', 'isolation: a foreign section or unknown name returns from the callback without touching the '
@@ -131,6 +132,7 @@ def run(ctx):
            'options in the table but not documented: %s; documented but not in the table: %s' % (
                sorted(seen - cand), sorted(cand - seen)),
            how='%d options in both' % len(seen & cand))
+    sentinel_rule(ctx, prog)
     # lookup uses the same index for name and parser
     CB = prog.require_func(CALLBACK)
     ind = [c for c in CB.calls() if c.get('callee') is None]
@@ -175,6 +177,29 @@ def run(ctx):
         bad = [(n, m) for n, v, m in pi if m and m != 'LOG_' + n]
         chk.ob('T3', 'name-is-macro-suffix[%s]' % kind, not bad, TI.where(), TI.name,
                'name/macro mismatch: %s' % bad, how='every name X maps to LOG_X')
+        # every value of the name table is accepted by the option parser (not only "most")
+        PV = prog.func('snoopy_configfile_parseValue_syslog_' + kind.lower())
+        if PV is not None:
+            conv = PV.calls(TI.name)
+            okv = len(conv) == 1
+            detailv = 'the option parser does not call %s' % TI.name
+            if okv:
+                h = common.holder(PV, conv[0])
+                fld = 'syslog_' + kind.lower()
+                vals = sorted(v for n, v in si)
+                # the not-found value: what ToInt yields on its final else
+                rejected = []
+                for v in vals:
+                    if not value_is_stored(PV, h, v, fld):
+                        rejected.append(v)
+                okv = not rejected
+                names_rej = [n for n, v in si if v in rejected]
+                detailv = 'the parser of syslog_%s does not store the table value(s) %s (%s): those names silently fall ' \
+                          'back to the default' % (kind.lower(), rejected, ', '.join(sorted(names_rej)))
+            chk.ob('T3', 'parser-accepts-every-table-value[%s]' % kind, okv, PV.where(), PV.name, detailv,
+                   how='for each of the %d table values the branch storing the converted value is taken' % len(si))
+    # ---- T7: quote stripping ----------------------------------------------------------------------------
+    quote_rule(ctx, prog)
     # ---- T4 --------------------------------------------------------------------------------------
     ba = BoundsAnalysis(prog, cg)
     # derive_limits records obligations under rule D1 of C02; rename here
@@ -238,3 +263,179 @@ def run(ctx):
         ok = bool(nodes) and C.must_pass_through(SD, lambda e, ids={n.id for n in nodes}: e.id in ids)
         chk.ob('T6', 'default[%s]' % fld, ok, nodes[0].where() if nodes else SD.where(), SD.name,
                'setDefaults does not assign %s on every path' % fld, nontrivial=False)
+
+
+def eval_cond(c, var_id, value):
+    """evaluate a simple condition over one integer variable for a concrete value; None if unknown"""
+    c = strip(c)
+    if c is None:
+        return None
+    if c.k == 'UnaryOperator' and c['op'] == '!':
+        r = eval_cond(c.ch[0], var_id, value)
+        return None if r is None else (not r)
+    if c.k == 'BinaryOperator' and c['op'] in ('==', '!=', '<', '<=', '>', '>='):
+        def val(x):
+            x = strip(x)
+            d = decl_of(x)
+            if d is not None and d['id'] == var_id:
+                return value
+            return x.get('v')
+        a, b = val(c.ch[0]), val(c.ch[1])
+        if a is None or b is None:
+            return None
+        return {'==': a == b, '!=': a != b, '<': a < b, '<=': a <= b, '>': a > b, '>=': a >= b}[c['op']]
+    d = decl_of(c)
+    if d is not None and d['id'] == var_id:
+        return value != 0
+    return None
+
+
+def value_is_stored(PV, holder_id, value, field):
+    """following the branches that test the converted value, is the path for `value` one that stores
+    the converted variable itself into the field?"""
+    bid = PV.entry
+    seen = set()
+    stored = None
+    while bid is not None and bid not in seen:
+        seen.add(bid)
+        b = PV.blocks[bid]
+        for e in b.elems:
+            if e.k == 'BinaryOperator' and e['op'] == '=':
+                l = strip(e.ch[0])
+                if l.k == 'MemberExpr' and l.get('member') == field:
+                    d = decl_of(e.ch[1])
+                    stored = d is not None and d['id'] == holder_id
+        nxt = None
+        live = [(s, u) for s, u in b.all_succs if s is not None and not u]
+        if b.cond is not None and len(b.all_succs) == 2 and any(
+                n.k == 'DeclRefExpr' and n['ref'].get('id') == holder_id for n in b.cond.walk()):
+            r = eval_cond(b.cond, holder_id, value)
+            if r is None:
+                return True  # cannot evaluate: do not claim a rejection
+            nxt = b.all_succs[0 if r else 1][0]
+        elif len(live) >= 1:
+            nxt = live[0][0]
+        bid = nxt
+    return bool(stored)
+
+
+def is_last_index(P, idx, base_id, depth=0):
+    """idx is strlen(base) - 1, directly or through a variable holding strlen(base)"""
+    from engine.dataflow import def_exprs
+    idx = strip(idx)
+    if idx is None or depth > 3:
+        return False
+    if idx.k == 'BinaryOperator' and idx['op'] == '-' and strip(idx.ch[1]).get('v') == 1:
+        a = strip(idx.ch[0])
+        if a.k == 'CallExpr' and a.get('callee') == 'strlen' and (decl_of(arg(a, 0)) or {}).get('id') == base_id:
+            return True
+        d = decl_of(a)
+        if d is not None:
+            return any(strip(x).k == 'CallExpr' and strip(x).get('callee') == 'strlen' and
+                       (decl_of(arg(strip(x), 0)) or {}).get('id') == base_id for x in def_exprs(P, d['id']))
+    d = decl_of(idx)
+    if d is not None:
+        return any(is_last_index(P, x, base_id, depth + 1) for x in def_exprs(P, d['id']))
+    return False
+
+
+def sentinel_rule(ctx, prog):
+    """the terminator row of the option table (empty name, NULL parser and printer) is never selected"""
+    chk = ctx.chk
+    for fname in ('snoopy_configfile_optionRegistry_getIdFromName', 'snoopy_configfile_optionRegistry_getOptionValueAsString'):
+        f = prog.func(fname)
+        if f is None:
+            continue
+        # uses of a row: `return i` / indirect call through registry[i]
+        uses = []
+        for n in f.body.walk():
+            if n.k == 'ReturnStmt' and n.ch and decl_of(n.ch[0]) is not None and decl_of(n.ch[0])['kind'] == 'var':
+                uses.append((n, decl_of(n.ch[0])['id']))
+            if n.k == 'CallExpr' and n.get('callee') is None:
+                sub = [x for x in n.ch[0].walk() if x.k == 'ArraySubscriptExpr']
+                if sub and decl_of(sub[0].ch[1]) is not None:
+                    uses.append((n, decl_of(sub[0].ch[1])['id']))
+        ok = bool(uses)
+        detail = 'no row selection found'
+        for n, iv in uses:
+            # an edge "registry[i].name differs from the empty string" must dominate the use
+            dom = False
+            for b in f.blocks.values():
+                c = strip(b.cond) if b.cond is not None else None
+                if c is None or len(b.all_succs) != 2:
+                    continue
+                calls = [x for x in c.walk() if x.k == 'CallExpr' and x.get('callee') == 'strcmp' and
+                         any(strip(a).k == 'StringLiteral' and strip(a).get('s') == '' for a in x.ch[1:]) and
+                         any(y.k == 'DeclRefExpr' and y['ref'].get('id') == iv for y in x.walk())]
+                if not calls:
+                    continue
+                ce = common.compare_edges(b, lambda z: z is calls[0])
+                if ce is None:
+                    continue
+                v, eq, ne = ce
+                differ_edge = ne if v == 0 else eq
+                el = C.cfg_elem_of(f, n)
+                visited, _ = C.reach(f, (f.entry, 0), None, edge_filter=lambda bb, si, b=b, d=differ_edge: not (bb.id == b.id and si == d))
+                if el.id not in visited:
+                    dom = True
+            if not dom:
+                ok = False
+                detail = '%s can select the terminator row (empty name, NULL parser/printer): an empty option name ' \
+                         '("= x" in snoopy.ini) then calls a NULL function pointer' % render(n)[:50]
+        chk.ob('T1', 'sentinel-row-never-selected[%s]' % fname, ok, f.where(), fname, detail,
+               how='every row use is dominated by strcmp(registry[i].name, "") != 0')
+
+
+def quote_rule(ctx, prog):
+    chk = ctx.chk
+    P = prog.require_func('snoopy_ini_parse_stream')
+    # stores that cut the last character of `value`
+    n = 0
+    for st in P.body.walk():
+        if st.k != 'BinaryOperator' or st['op'] != '=' or strip(st.ch[1]).get('v') != 0:
+            continue
+        l = strip(st.ch[0])
+        if l.k != 'ArraySubscriptExpr':
+            continue
+        idx = strip(l.ch[1])
+        base = decl_of(l.ch[0])
+        if base is None or not is_last_index(P, idx, base['id']):
+            continue
+        n += 1
+        # equality tests whose TRUE edge dominates the store
+        firsts, lasts = set(), set()
+        for b in P.blocks.values():
+            c = strip(b.cond) if b.cond is not None else None
+            if c is None or len(b.all_succs) != 2 or c.k != 'BinaryOperator' or c['op'] != '==':
+                continue
+            k = [strip(x).get('v') for x in c.ch if strip(x).get('v') is not None and strip(x).k != 'DeclRefExpr']
+            if not k:
+                continue
+            tgt = [strip(x) for x in c.ch if strip(x).get('v') is None]
+            if not tgt:
+                continue
+            t = tgt[0]
+            which = None
+            if t.k == 'UnaryOperator' and t['op'] == '*' and (decl_of(t.ch[0]) or {}).get('id') == base['id']:
+                which = 'first'
+            elif t.k == 'ArraySubscriptExpr' and (decl_of(t.ch[0]) or {}).get('id') == base['id']:
+                i2 = strip(t.ch[1])
+                if i2.get('v') == 0:
+                    which = 'first'
+                elif is_last_index(P, i2, base['id']):
+                    which = 'last'
+            if which is None:
+                continue
+            # does the true edge dominate the store?
+            el = C.cfg_elem_of(P, st)
+            visited, _ = C.reach(P, (P.entry, 0), None, edge_filter=lambda bb, si, b=b: not (bb.id == b.id and si == 0))
+            if el.id not in visited:
+                (firsts if which == 'first' else lasts).add(k[0])
+        same = firsts & lasts
+        chk.ob('T7', 'unquote-needs-matching-pair[%d]' % n, bool(same), st.where(), P.name,
+               'the closing character is cut off on a path where the first character is known to be one of %s and the '
+               'last one of %s: a value that opens with one quote character and ends with the other (or any accepted '
+               'mix) loses both ends' % (sorted(map(chr, firsts)) or 'nothing', sorted(map(chr, lasts)) or 'nothing'),
+               how='both ends equal %s on every path to the cut' % sorted(map(chr, same)))
+    if n == 0:
+        raise AnalysisBroken('no quote-stripping store found in snoopy_ini_parse_stream')
